@@ -461,6 +461,24 @@ def clause_cache_only_everywhere(ctx, P, pre="C13l"):
     if q:
         edges = guard_edges(P, g, lambda atom, outcome, bb: expr_or_closure_mentions_field(P, atom, marker, "Zeroconf"))
         ok = bool(edges) and guarded(P, g, q[0][0], edges)
+        # the marker holds service types: it is asked about the same type the open-browse test looks up
+        qkeys, mkeys = set(), []
+        for hf in [g] + [P.fns[c] for c in P.closures_of.get(g.name, [])]:
+            htr = tracer(P, hf)
+            for hb, ht in hf.calls():
+                if len(ht["args"]) < 2:
+                    continue
+                recv = htr.operand(ht["args"][0], endpos(hf, hb))
+                key = show(htr.operand(ht["args"][1], endpos(hf, hb)))
+                if method(cname(ht)) in ("contains_key", "get") and (expr_mentions_field(recv, "service_queriers", "Zeroconf") or fn_mentions_field(P, hf, "Zeroconf", "service_queriers") and "HashMap" in cname(ht) and "Sender" in cname(ht)):
+                    qkeys.add(key)
+                if method(cname(ht)) == "contains" and "HashSet" in cname(ht) and (expr_mentions_field(recv, marker, "Zeroconf") or hf.is_closure):
+                    mkeys.append((key, hf.loc(hb)))
+        same = bool(mkeys) and all(k in qkeys for (k, _w) in mkeys) if qkeys else True
+        ctx.ob(pre + ".cache-only-asked-by-type", g.name + "|follow-up", same, g.loc(q[0][0]),
+               "%s is asked about the service type the open-browse test looks up" % marker if same else
+               "%s (a set of service types) is asked about %s, not about the type looked up in service_queriers (%s): the test is always "
+               "false and the follow-up questions go out for a cache-only browse" % (marker, [k for k, _w in mkeys][:2], sorted(qkeys)[:2]))
         ctx.ob(pre + ".cache-only-no-query", g.name + "|follow-up", ok, g.loc(q[0][0]),
                "the follow-up question is asked only after a test that involves %s" % marker if ok else
                "the follow-up questions of an unresolved instance are sent for a cache-only browse too")
